@@ -16,4 +16,8 @@ func init() {
 		"Decided by symbolic byte-layout extraction of the straight-line encoders, compared with tables transcribed from the RFCs: AEAD additional data with and without connection ID, CBC MAC input with and without connection ID, explicit nonce placement, TLS 1.2 PRF labels / seed order / output lengths, key-block partition offsets as linear forms in (mac,key,iv), per-suite (mac,key,iv) constants and record cipher for every ID the registry hands out, client/server key mirror at every cipher construction.",
 		"P_hash iteration, HMAC/HKDF/AES/CCM/ChaCha internals (pinned by known-answer tests); loop-built nonces are covered by a dependency rule only.",
 		ruleRecordLayouts, rulePRFLayouts, ruleKeyBlock, ruleSuiteConstants, ruleKeyMirror)
+	register("C03",
+		"Decided: DTLS 1.2 client: for certificate suites every path to the key-derivation commit passes a successful ServerKeyExchange signature check over (local random, remote random, curve, public key) against the presented chain, a successful chain verification unless InsecureSkipVerify, and the VerifyPeerCertificate callback when set; a certificate suite without a Certificate message cannot advance. DTLS 1.2 server: a present CertificateVerify must verify over ClientHello..ClientKeyExchange, a certificate without CertificateVerify cannot advance, the verified flag is true only after a successful VerifyClientCert, and the extracted decision table over ClientAuth x certificate x verified x suite equals the policy (exhaustive over the finite table). DTLS 1.3: hasFinished / hasCertificateVerify flags set only after the checked verifications, commit only after hasFinished.",
+		"Correctness of x509 / signature verification (library), expiry and time, PSK knowledge (covered through the Finished comparison of C04).",
+		ruleClientServerAuth12, ruleServerClientAuth12, ruleProtectedFlight13)
 }
